@@ -85,7 +85,8 @@ ENTRY_NAMES = ["isi_profile(a,b)", "isi_profile(list)", "isi_profile_multi", "is
 
 
 def snap(sts):
-    return [(st.spikes.tobytes(), str(st.spikes.dtype), st.t_start, st.t_end) for st in sts]
+    return [(type(st.spikes).__name__, np.asarray(st.spikes).tobytes(),
+             str(np.asarray(st.spikes).dtype), st.t_start, st.t_end) for st in sts]
 
 
 # ------------------------------------------------------------------ reconcile
@@ -205,7 +206,9 @@ def eval_measures(r, raws, edges, kws, be, rank=(), only=None):
                 continue
             if snap(sts) != before:
                 r.violation(ID, "modifies", be, "modifies/%s/%s" % (name, be), case,
-                            "inputs unchanged", [[s.spikes.tolist(), s.t_start, s.t_end] for s in sts],
+                            "inputs unchanged",
+                            [[type(s.spikes).__name__, np.asarray(s.spikes).tolist(), s.t_start,
+                              s.t_end] for s in sts],
                             "the call changed the spike times or edges of a train passed to it",
                             rank)
                 continue
